@@ -539,11 +539,20 @@ class IRWithUses(ABC):
         return None
 
 
-_VALUE_NAME_PATTERN = re.compile(r"([A-Za-z_$.-][\w$.-]*)")
-"""Pattern to check if a name is valid for an SSAValue or Block."""
+_VALUE_NAME_PATTERN = re.compile(r"([A-Za-z_$.-][\w$.-]*)", re.ASCII)
+"""
+Pattern to check if a name is valid for an SSAValue or Block.
+ASCII only: the lexer only accepts ASCII identifiers, so any other name would print
+to text that cannot be parsed back.
+"""
 
-_VALUE_NAME_SUFFIX_PATTERN = re.compile(r"(_\d+)$")
-"""This pattern is used to remove the suffix from an SSAValue or Block name."""
+_VALUE_NAME_SUFFIX_PATTERN = re.compile(r"(_\d+)+$", re.ASCII)
+"""
+This pattern is used to remove the suffixes from an SSAValue or Block name.
+All trailing `_<number>` groups are removed: the printer disambiguates equal names by
+appending `_<number>`, so a name that keeps such a suffix could collide with the
+printed name of another value.
+"""
 
 
 @dataclass(eq=False)
@@ -556,7 +565,8 @@ class IRWithName(ABC):
 
     @name_hint.setter
     def name_hint(self, name: str | None):
-        self._name = self.extract_valid_name(name)
+        # A name made only of numeric suffixes (e.g. `_0`) is no hint at all.
+        self._name = self.extract_valid_name(name) or None
 
     @classmethod
     def is_valid_name(cls, name: str | None):
@@ -576,7 +586,7 @@ class IRWithName(ABC):
     @classmethod
     def extract_valid_name(cls, name: str | None) -> str | None:
         """
-        If the name is valid, extracts the name before an optional `_\\d+` suffix.
+        If the name is valid, extracts the name before any trailing `_\\d+` suffixes.
         Raises ValueError otherwise.
         """
         if name is None:
@@ -588,7 +598,7 @@ class IRWithName(ABC):
             )
 
         if match := _VALUE_NAME_SUFFIX_PATTERN.search(name):
-            # Remove `_` followed by numbers at the end of the name
+            # Remove every `_` followed by numbers at the end of the name
             return name[: match.start()]
 
         return name
